@@ -14,17 +14,20 @@ theorem readHeaders_eq (env : Env) (app : App) (s : Sock)
   | none => simp [indexOf_none hb]
   | some p =>
     obtain ⟨head, rest⟩ := p
-    have hne : ¬ ((head.length : Int) = -1) := by omega
-    simp only [indexOf_some hb, left_some hb, removeAt_some hb, hne, decide_false, Bool.false_eq_true, if_false]
+    -- however the code tests "not found" (== -1, < 0, …): the index is a length
+    have hlen : (0 : Int) ≤ (head.length : Int) := by omega
+    simp only [indexOf_some hb, left_some hb, removeAt_some hb]
     cases hp : Parser.parseRequestHeaders head s.reqHeaders with
-    | none => simp [Cxx.parseRequestHeaders, hp, writeError_eq, Cxx.viaQ]
+    | none =>
+      simp only [Cxx.parseRequestHeaders, hp, writeError_eq, Cxx.viaQ, removeAt_some hb]
+      all_goals grind
     | some rh =>
       cases hu : env.url rh.rawPath with
       | none => exact absurd hu (hurl head rest rh hb hp)
       | some pq =>
         obtain ⟨p, q⟩ := pq
         simp only [Cxx.parseRequestHeaders, hp, Cxx.parsePath, hu, if_true, Cxx.emitHp, Cxx.size, Cxx.truncate, removeAt_some hb]
-        grind
+        all_goals grind
 
 /-- the one path on which the model is coarser than the code, exactly: the head parses, QUrl rejects
     the target.  The code has stored the parsed method, raw target and header map before it answers
@@ -39,9 +42,8 @@ theorem readHeaders_badUrl (env : Env) (app : App) (s : Sock) (head rest : Bytes
   constructor
   · unfold SocketPrivate_readHeaders
     unfold_gen_helpers
-    have hne : ¬ ((head.length : Int) = -1) := by omega
-    simp only [crlf2_lit, indexOf_some hb, left_some hb, hne, decide_false, Bool.false_eq_true, if_false,
-      Cxx.parseRequestHeaders, hp, Cxx.parsePath, hu, if_true, writeError_eq]
+    have hlen : (0 : Int) ≤ (head.length : Int) := by omega
+    simp only [crlf2_lit, indexOf_some hb, left_some hb, Cxx.parseRequestHeaders, hp, Cxx.parsePath, hu, if_true, writeError_eq]
     all_goals grind
   · unfold Sock.readHeaders
     simp only [hb, hp, hu, Cxx.viaQ]
